@@ -65,6 +65,28 @@ fn rand_point(rng: &mut Rng, hot: &Rectangle) -> (i32, i32) {
         2 => (N, rng.i32r(-1, N)),
         3 => (rng.i32r(0, N - 1), -1),
         4 => *rng.pick(&[(i32::MIN, 0), (0, i32::MAX), (-1, -1), (64, 64), (63, 64), (128, 5), (5, 128), (-64, 3)]),
+        // far-away points that alias a cell of the hot area under index arithmetic that drops high
+        // bits or folds rows into columns: one (or both) coordinates moved by a multiple of 64, of
+        // 4096 or by a power of two up to 2^31 (added after seeded `C20-12`: `y << 6` without a range
+        // check on y, wrong only from y = 2^26)
+        5 => {
+            let (x, y) = (hot.top_left.x + rng.i32r(0, hot.size.width as i32 - 1), hot.top_left.y + rng.i32r(0, hot.size.height as i32 - 1));
+            let shift = |rng: &mut Rng| -> i32 {
+                let m: i64 = match rng.below(4) {
+                    0 => 64 * rng.i32r(1, 70) as i64,
+                    1 => 4096 * rng.i32r(1, 1 << 18) as i64,
+                    2 => 1i64 << rng.i32r(6, 31),
+                    _ => (1i64 << rng.i32r(6, 30)) * rng.i32r(1, 31) as i64,
+                };
+                let m = if rng.chance(1, 3) { -m } else { m };
+                m.clamp(i32::MIN as i64 + 64, i32::MAX as i64 - 64) as i32
+            };
+            match rng.below(3) {
+                0 => (x.wrapping_add(shift(rng)), y),
+                1 => (x, y.wrapping_add(shift(rng))),
+                _ => (x.wrapping_add(shift(rng)), y.wrapping_add(shift(rng))),
+            }
+        }
         _ => (hot.top_left.x + rng.i32r(0, hot.size.width as i32 - 1), hot.top_left.y + rng.i32r(0, hot.size.height as i32 - 1)),
     }
 }
